@@ -480,7 +480,7 @@ class _Gen:
             d = {"kind": "struct", "name": name, "rename_all": None, "deny": "deny" in F and r.random() < 0.3,
                  "fields": None}
             if "rename_all" in F and r.random() < 0.35: d["rename_all"] = r.choice(FIELD_RULES)
-            d["fields"] = self.fields(i, r.randint(1, 5))
+            d["fields"] = self.fields(i, 0 if r.random() < 0.06 else r.randint(1, 5))        # `struct S {}` now and then
             d["fields"] = self.dedupe_wires(d["fields"], d["rename_all"])
             return d
         if kind == "tuple_struct":
@@ -535,7 +535,8 @@ class _Gen:
                 elif "default" in F and roll < 0.7 and self.has_default(ty): f["mode"] = "default"
                 v["fields"] = [f]
             elif k == "struct":
-                v["fields"] = self.dedupe_wires(self.fields(i, r.randint(1, 3), reserved=reserved), None)
+                # a field-less struct variant `V {}` now and then (an empty map on the wire, not a unit)
+                v["fields"] = self.dedupe_wires(self.fields(i, 0 if r.random() < 0.12 else r.randint(1, 3), reserved=reserved), None)
             d["variants"].append(v)
         # distinct wire names (and distinct identifiers after typify's sanitisation)
         seen = set(); keep = []
